@@ -1351,6 +1351,15 @@ impl HnswBackend {
                     }
                 }
             }
+        } else if let (RecoveryMode::Strict, Some(committed_seq)) =
+            (recovery_mode, manifest.latest_snapshot_wal_seq)
+        {
+            // The MANIFEST committed a snapshot sequence number but names no snapshot: its
+            // `latest_snapshot` entry was lost (a damaged key is read as an absent field).
+            // An empty base is only valid if the WAL still holds every entry up to the
+            // committed sequence number; the check after replay refuses otherwise.
+            fallback_gap_end = committed_seq;
+            fallback_gap_missing = committed_seq;
         }
 
         // Replay WAL segments (skip entries already captured in snapshot)
